@@ -23,11 +23,28 @@ def J(name, wl, quick, thorough, **params):
     return d
 
 
+def with_hb(jobs, share=0.3):
+    """Preemption happens at synchronisation and atomic operations only, so an access that escaped
+    a critical section cannot be interleaved with — the happens-before detector finds it instead.
+    Every main job therefore gets a smaller twin with the detector switched on."""
+    out = list(jobs)
+    for j in jobs:
+        if j["params"].get("races") or j.get("fork_each"):
+            continue
+        t = {k: (dict(v) if isinstance(v, dict) else v) for k, v in j.items()}
+        t["name"] = j["name"] + ".hb"
+        t["params"]["races"] = 1
+        t["quick"] = max(1000, int(j["quick"] * share))
+        t["thorough"] = max(1000, int(j["thorough"] * share))
+        out.append(t)
+    return out
+
+
 def wrappers(mode, names, quick, thorough, **kw):
     return [J("%s.%s" % (n, mode), "wl_" + n, quick, thorough, mode=mode, **kw) for n in names]
 
 
-PROPS = {
+PROPS_RAW = {
     "C01": {"jobs": wrappers("excl", ["guarded", "guarded_opt", "shared_guarded",
                                       "shared_guarded_opt", "ordered_guarded"], 100000, 2500000)},
     "C02": {"jobs": wrappers("rw", ["shared_guarded", "shared_guarded_opt", "ordered_guarded",
@@ -87,9 +104,14 @@ PROPS = {
                      J("rcu.freeze", "wl_rcu", 60000, 1500000, mode="freeze", elem=0),
                      J("cow.freeze", "wl_cow", 60000, 1500000, mode="freeze")]},
     "C16": {"jobs": [J("dd.locked", "wl_dd", 150000, 4000000, single=0),
-                     J("dd.single", "wl_dd", 60000, 1500000, single=1)]},
-    "C17": {"jobs": [J("soh.std", "wl_soh", 150000, 4000000, mode="std")]},
-    "C18": {"jobs": [J("dobj", "wl_dobj", 100000, 2500000)]},
+                     J("dd.single", "wl_dd", 60000, 1500000, single=1),
+                     J("dd.hb", "wl_dd", 40000, 1000000, single=0, races=1)]},
+    "C17": {"jobs": [J("soh.std", "wl_soh", 150000, 4000000, mode="std"),
+                     # preemption happens at synchronisation points only; an access that escaped the
+                     # holder's critical section is found by the happens-before detector instead
+                     J("soh.hb", "wl_soh", 60000, 1500000, mode="std", races=1)]},
+    "C18": {"jobs": [J("dobj", "wl_dobj", 100000, 2500000),
+                     J("dobj.hb", "wl_dobj", 30000, 800000, races=1)]},
     "C19": {"jobs": [J("trip.explicit", "wl_trip", 200000, 5000000, mode="explicit"),
                      J("trip.static", "wl_trip", 6000, 150000, mode="static", fork_each=1)]},
     "C20": {"jobs": [J("lr.throw", "wl_lr", 150000, 4000000, mode="throw")] +
@@ -101,6 +123,11 @@ PROPS = {
              J("dd.throw", "wl_dd", 80000, 2000000, mode="throw"),
              J("dd.single.throw", "wl_dd", 30000, 800000, mode="throw", single=1)]},
 }
+
+# properties whose main jobs get a happens-before twin (C03, C07, C16-C19 have theirs spelled out)
+PROPS = dict(PROPS_RAW)
+for _p in ("C01", "C02", "C04", "C05", "C06", "C09", "C10", "C11", "C12", "C13", "C15"):
+    PROPS[_p] = dict(PROPS_RAW[_p], jobs=with_hb(PROPS_RAW[_p]["jobs"]))
 
 
 def _t(level, note, technique):
